@@ -272,11 +272,14 @@ def strip_attrs_and_docs(text):
 def name_return(sig, ret_name):
     """`-> T` => `-> (ret: T)` on a signature ending just before `{` / where-clause."""
     bl = blank_noncode(sig)
+    # the return arrow belongs to the signature proper, not to a bound in the where-clause
+    mwh = re.search(r"\bwhere\b", bl)
+    limit = mwh.start() if mwh else len(bl)
     # find the `->` at paren depth 0 after the parameter list
     depth = 0
     arrow = -1
     k = 0
-    while k < len(bl):
+    while k < limit:
         ch = bl[k]
         if ch in "([<":
             # '<' of generics: track but beware of `->`
